@@ -516,5 +516,5 @@ func checkC17(t *testing.T, job *Job, res *Result) {
 		b = Bounds{D: 2, S: 0}
 	}
 	res.Rule = "configurations = command x pre-state x per-target probe scripts x in-flight sets x (deploy timeout, drain timeout, probe interval) triples; stall bound 0 so that elapsed virtual time is exact; oracle: return time EQUAL to a reference simulator (probe ticker, first 2xx, remaining in-flight time), stated upper bounds, zero probes to removed/replaced/rejected targets in a 4-interval settle window, live targets keep being probed"
-	runS(t, job, res, "C17", scs, b, 6000)
+	runS(t, job, res, "C17", withReversed(scs), b, 6000)
 }
